@@ -157,8 +157,7 @@ def parse_interactions(lines, comments='#', directed=False, delimiter=None, node
         else:
             timestamps = G.adj[u][v]['t']
             if len(timestamps) > 0 and timestamps[-1][1] < s:
-                for t in range(timestamps[-1][1], s):
-                    G.add_interaction(u, v, t=t)
+                G.add_interaction(u, v, t=timestamps[-1][1], e=s)
 
     return G
 
